@@ -1,0 +1,21 @@
+//go:build verif
+
+// Contracts for package goast, checked by /verif/gvc (comment-only file).
+
+package goast
+
+//@ func ImportPath(spec) (path)
+//@   requires spec != nil && spec.Path != nil
+//@   requires typing: unquoteOK(spec.Path.Value)
+//@   ensures path == unquoted(spec.Path.Value)
+//@   assigns nothing
+
+// The first import of the file whose (unquoted) path is the given one, or nil.
+//@ func FindImportSpec(f, path) (r)
+//@   requires f != nil
+//@   requires typing: forall i int {f.Imports[i]} :: 0 <= i && i < len(f.Imports) ==> f.Imports[i] != nil && f.Imports[i].Path != nil && unquoteOK(f.Imports[i].Path.Value)
+//@   ensures [C10] none: r == nil ==> forall i int {f.Imports[i]} :: 0 <= i && i < len(f.Imports) ==> unquoted(f.Imports[i].Path.Value) != path
+//@   ensures [C10] found: r != nil ==> r.Path != nil && unquoted(r.Path.Value) == path && exists i int :: 0 <= i && i < len(f.Imports) && f.Imports[i] == r
+//@   assigns nothing
+//@   loop 0
+//@     invariant forall i int {f.Imports[i]} :: 0 <= i && i < #k ==> unquoted(f.Imports[i].Path.Value) != path
